@@ -240,6 +240,7 @@ impl <T: ArrayElement> ArrayManipulate<T> for Array<T> {
         let bound = if let Some(axis) = axis { self.shape[axis] } else { self.len()? };
         if indices.iter().any(|&i| i > bound) { return Err(ArrayError::OutOfBounds { value: "index" }) }
         values.ndim()?.is_dim_supported(&(1 ..= self.ndim()?).collect::<Vec<usize>>())?;
+        if axis.is_some() && self.ndim()? == 1 { return self.insert(indices, values, None) }
 
         if let Some(axis) = axis {
             vec![indices.len()].is_broadcastable(&self.get_shape()?[..1])?;
